@@ -139,6 +139,22 @@ Theorem tar_member_pipe_refuted :
 Proof. exact tar_member_pipe_refuted_thm. Qed.
 Print Assumptions tar_member_pipe_refuted.
 
+
+(* the look-behind drop: REFUTED that every in-range request is answered with the block when the
+   same reader is asked again for an earlier block (known finding fixedstruct_streamed_multi_block);
+   with the drop disabled the answers are the blocks *)
+Theorem lookbehind_drop_refuted :
+  exists (plain : list N) (bs : N) (reqs : list N),
+    let n := len plain in
+    let fresh := mk_rstate 0 (plain, []) [] in
+    (forall i, In i reqs -> in_range n bs i = true)
+    /\ read_blocks_m sched_state (fill_block sched_state sched_read (Some GZ_BUF_SZ)) true bs n fresh reqs
+       <> map (fun i => AOk (blk bs plain i)) reqs
+    /\ read_blocks_m sched_state (fill_block sched_state sched_read (Some GZ_BUF_SZ)) false bs n fresh reqs
+       = map (fun i => AOk (blk bs plain i)) reqs.
+Proof. exact lookbehind_drop_refuted_thm. Qed.
+Print Assumptions lookbehind_drop_refuted.
+
 (* copy loop of decompress_to_ntf (journal / evtx payloads) and the bz2 / lz4 size pre-pass *)
 Theorem drain_is_plain :
   forall dstate read remaining, contract dstate read remaining ->
